@@ -110,6 +110,13 @@ func (sc *Scope) lookup(name string) (Val, bool) {
 	}
 	if sc.fr != nil {
 		fr := sc.fr
+		for _, f := range fr.fn.FreeVars {
+			if f.Name() == name {
+				if _, ok := fr.env[f]; ok {
+					return sc.deref(fr.env[f]), true
+				}
+			}
+		}
 		// candidates: source-level bindings (debug refs) and phis named after the variable; the closest one
 		// that dominates the point of interest wins (at == nil: function exit, any unique binding)
 		type cand struct {
@@ -176,6 +183,9 @@ func (sc *Scope) lookup(name string) (Val, bool) {
 		if best != nil {
 			v := fr.eval(best.val)
 			if best.isAddr {
+				if t, isT := v.(*Term); isT {
+					return t, true // variable of struct type: its name denotes the object
+				}
 				return c.load(fr, sc.state(), v, 0), true
 			}
 			return v, true
@@ -616,6 +626,26 @@ func (c *VCtx) translateCall(sc *Scope, x *ECall) Val {
 	case "calls":
 		h := c.heap(st, "G:calls", ArrSort(SRef, SInt))
 		return Select(h, arg(0))
+	case "written":
+		// written(x.f): this invocation has written field f of object x (thread-local ghost count > 0)
+		fe, ok := x.Args[0].(*EField)
+		if !ok {
+			unsup("written needs a field expression")
+		}
+		base := c.asTerm(c.translate(sc, fe.X))
+		if base.GT == nil {
+			unsup("written: untyped object")
+		}
+		hn := "G:writes:" + fieldHeapName(deref0(base.GT), fe.F)
+		h := c.heap(st, hn, ArrSort(SRef, SInt))
+		return Gt(Select(h, base), IntLit(0))
+	case "lastcs":
+		// abstract time at which this invocation last left a critical section
+		if t, ok := st.heaps["G:lastcs"]; ok {
+			return t
+		}
+		c.heapSorts["G:lastcs"] = SInt
+		return c.declare(c.heapName("G:lastcs", st.epoch), SInt)
 	case "aint":
 		// aint(c): value of the atomic.Int32 / Int64 cell c (kind given by the Go type of c, default Int32)
 		a := arg(0)
